@@ -11,6 +11,8 @@ structure St where
   ctxs : List Ctx := []
   acts : List (String × String) := []
   stdin : List String := []
+  looks : List (String × String) := []
+  inherit : Option Nat := none
 
 def St.env (st : St) : Env :=
   { defined := fun n => st.defined.contains n
@@ -35,6 +37,32 @@ def showSeen (u : StdinUse) : Option (List String) → String
     | _ => match ls with
       | [] => "eof"
       | l :: _ => "l:" ++ l
+
+/-- `looks` entries are `name=<class>:<mode>`, class `exec` = a new program, else the handler's shell or a fork. -/
+def St.lookOf (st : St) (h : String) : Look :=
+  match st.looks.lookup h with
+  | some m => if m.startsWith "exec:" then .exec else .shell
+  | none => .shell
+
+def showU : Option Nat → String
+  | some n => toString n
+  | none => "u"
+
+def parseOptNat (s : String) : Option (Option Nat) :=
+  if s == "u" then some none else s.toNat?.map some
+
+/-- `j:idx/ctx` -/
+def parseCur (s : String) : Option (List (Nat × Option Nat × Option Nat)) :=
+  (strList s).mapM fun e =>
+    match e.splitOn ":" with
+    | [j, v] =>
+      match v.splitOn "/" with
+      | [a, b] =>
+        match j.toNat?, parseOptNat a, parseOptNat b with
+        | some j, some a, some b => some (j, a, b)
+        | _, _, _ => none
+      | _ => none
+    | _ => none
 
 def optArg (key : String) (toks : List String) : Option String :=
   match kv? key toks with
@@ -81,10 +109,29 @@ def step (st : St) (toks : List String) : St × String :=
     | some as => ({ st with acts := as }, "ok")
     | none => (st, "bad-op")
   | ["stdin", l] => ({ st with stdin := strList l }, "ok")
+  | ["looks", l] =>
+    match (strList l).mapM parseAct with
+    | some ls => ({ st with looks := ls }, "ok")
+    | none => (st, "bad-op")
+  | ["inherit", v] =>
+    if v == "-" then ({ st with inherit := none }, "ok")
+    else match v.toNat? with
+      | some n => ({ st with inherit := some n }, "ok")
+      | none => (st, "bad-op")
   | "run" :: args =>
     let (r, seen) := hookRunIO st.env args st.stdin st.ctxs
     let uses := r.log.map fun (_, h) => st.env.reads h
-    (st, showResult r ++ " in=" ++ showStrs ((uses.zip seen).map fun (u, s) => showSeen u s))
+    -- a position beyond the array is no context (`jq` prints null)
+    let inArr : Option Nat → Option Nat := fun o => o.bind fun n => if n < st.ctxs.length then some n else none
+    let cur := (viewsOf st.inherit st.lookOf r.log).map fun (_, idx, ctx) => showU idx ++ "/" ++ showU (inArr ctx)
+    (st, showResult r ++ " in=" ++ showStrs ((uses.zip seen).map fun (u, s) => showSeen u s) ++ " cur=" ++ showStrs cur)
+  | ["oracle", "current", c] =>
+    -- the clause "with that context selected as current" on what the handlers saw from where they looked
+    match (kv? "cur" [c]).bind parseCur with
+    | some views =>
+      if Spec.currentOk 0 views then (st, "true")
+      else (st, "false a handler (or a program it started) did not find its own context selected as current")
+    | none => (st, "bad-op")
   | "oracle" :: "run" :: rest =>
     -- the property itself on what the implementation showed (documented names, not the table)
     match (kv? "log" rest).bind parseLog, bit? (kv? "config" rest), bit? (kv? "ok" rest), kv? "args" rest with
